@@ -74,6 +74,10 @@ func runCmd(dir string, env []string, name string, args ...string) (string, erro
 
 // nativeReplay runs the given runs (all of one package) against the real build.
 // It returns, per run id, one of "CONFIRMED <msg>", "PASSED", "DIVERGED <why>", or "" if no result line was seen.
+// replayTimeScale slows the native harness clock (sleeps that stand for "let the others run" / "the
+// timer expires"); retries of timing-dependent replays use a larger scale.
+var replayTimeScale = 1
+
 func nativeReplay(prop, pkg string, runs []ReplayRun, file string) (map[string]string, string) {
 	rf := ReplayFile{Property: prop, Runs: runs}
 	b, _ := json.MarshalIndent(rf, "", " ")
@@ -89,14 +93,14 @@ func nativeReplay(prop, pkg string, runs []ReplayRun, file string) (map[string]s
 	os.WriteFile(ovFile, ob, 0o644)
 	defer os.Remove(ovFile)
 
-	env := append(goEnv(), "VERIF_REPLAY="+file)
+	env := append(goEnv(), "VERIF_REPLAY="+file, fmt.Sprintf("VERIF_TIMESCALE=%d", replayTimeScale))
 	race := false
 	for _, r := range runs {
 		if strings.HasPrefix(r.Msg, "data race") {
 			race = true
 		}
 	}
-	args := []string{"test", "-tags", "verif", "-vet=off", "-count=1", "-timeout", "90s", "-overlay", ovFile, "-run", "^TestVerifReplay$", "-v"}
+	args := []string{"test", "-tags", "verif", "-vet=off", "-count=1", "-timeout", fmt.Sprintf("%ds", 90*replayTimeScale), "-overlay", ovFile, "-run", "^TestVerifReplay$", "-v"}
 	if race {
 		// lockset reports are confirmed with the Go race detector
 		args = append(args, "-race")
@@ -209,6 +213,13 @@ func handleViolations(spec *Spec, ev *Evidence, viols []*Violation) (int, string
 			run := ReplayRun{ID: id, Fn: v.Case.Fn, Pkg: v.Case.Pkg, Args: v.Case.Args, Nondet: v.Inputs, Expect: "violation", Msg: v.Msg, Notes: v.Notes}
 			res, out := nativeReplay(spec.Property, v.Case.Pkg, []ReplayRun{run}, file)
 			lastOut = out
+			if !strings.HasPrefix(res[id], "CONFIRMED") && i == 0 {
+				// timing-dependent native runs: one retry with a slower harness clock
+				replayTimeScale = 8
+				res, out = nativeReplay(spec.Property, v.Case.Pkg, []ReplayRun{run}, file)
+				replayTimeScale = 1
+				lastOut = out
+			}
 			if strings.HasPrefix(res[id], "CONFIRMED") {
 				fmt.Printf("VIOLATION property=%s replay=%s\n", spec.Property, file)
 				fmt.Printf("  %s: %s (native: %s)\n", v.Case.String(), v.Msg, res[id])
@@ -263,6 +274,15 @@ func validateSamples(spec *Spec, cases []*Case, perCase int) (int, string) {
 				}
 				return ok, fmt.Sprintf("no result for %s %v (go test output tail: %s)", r.Fn, r.Args, tail)
 			default:
+				// timing-dependent harnesses (real timers natively): retry alone with a slower clock
+				replayTimeScale = 8
+				res2, _ := nativeReplay(spec.Property, pkg, []ReplayRun{r}, file+".retry")
+				replayTimeScale = 1
+				os.Remove(file + ".retry")
+				if res2[r.ID] == "PASSED" {
+					ok++
+					continue
+				}
 				return ok, fmt.Sprintf("%s %v inputs=%v: %s", r.Fn, r.Args, r.Nondet, res[r.ID])
 			}
 		}
